@@ -796,6 +796,10 @@ class ServerSSM(SSM):
 
             self.set_state(ABORTED)
 
+            # this is the server side of the transaction, the client looks
+            # for its transaction by that
+            apdu.apduSrv = True
+
             # send the response to the device
             self.response(apdu)
             return
